@@ -307,6 +307,7 @@ def run_case(case, res):
                 bad.append(f"filter() raised {r[1]}: {r[2]}")
             else:
                 got = nest_lab(holder)
+                res.observe("filter_results", got)
                 if got != lab_nest(exp):
                     bad.append(f"filter() result {got}, expected {lab_nest(exp)}")
                 elif calls_bad(calls, expcalls):
